@@ -206,3 +206,5 @@ from .common import lazy  # noqa: E402
 RULES.append(lazy("sched", "r_assignment_outputs", "completion of a task is inferred from the publication of its last output: every output must be published"))
 RULES.append(lazy("C03", "r6_loop_wiring", "every requested output is known to the scheduler and every event reaches notify"))
 RULES.append(lazy("C02", "r6_worker_deferral", "a task sequence whose inputs have all arrived is run (else its outputs never exist and the run never returns)"))
+RULES.append(lazy("C07", "r3_r5_recv_loop", "an unacknowledged transfer / fetch payload is re-sent after its grace period (else the dependent task or the requested output waits for ever)"))
+RULES.append(lazy("C10", "r10_resolve_callable", "entrypoint tasks and custom serde functions are found by their dotted names"))
